@@ -157,10 +157,10 @@ def stepT (d : Doc V E) (cfg : Cfg) (i : Nat) (sh : Shared V E) (t : Thread V E)
       match sh.slots.lookup r with
       | none =>
         some (runTo d cfg { sh with slots := (r, .inProcess i) :: sh.slots }
-                { t with stack := ⟨T, r, true, k⟩ :: t.stack } (d.body T r))
+                { t with stack := ⟨T, r, true, k⟩ :: t.stack } (d.compute T r))
       | some (.inProcess _) => some (sh, { t with ctl := .waiting T r k })
       | some (.computed T' res) => some (afterLookup d cfg sh t T r k T' res)
-    else some (runTo d cfg sh { t with stack := ⟨T, r, false, k⟩ :: t.stack } (d.body T r))
+    else some (runTo d cfg sh { t with stack := ⟨T, r, false, k⟩ :: t.stack } (d.compute T r))
   | .waiting T r k =>
     match sh.slots.lookup r with
     | some (.computed T' res) => some (afterLookup d cfg sh t T r k T' res)
